@@ -24,6 +24,7 @@ EXPLANATION = (
     "path to solver data passes check_is_solved() or a guarded cache test, and a cached solution is never left behind "
     "when the solved flag is lowered or the solver replaced; (R4) the custom timeout wins over the backend status and "
     "is reset before each run; (R5) no process exit is reachable and no handler swallows an exception around a solver "
+    "(P5 of the search protocol) a lower bound cached across calls is raised inside the search only after a proven-infeasible run.  "
     "run except the one tabled in _run_with_timeout.  NOT decided: that HiGHS' kOptimal is a proof (trusted)."
 )
 DECIDED = ["is_solved() is raised only under a proof condition (all writers, all paths)",
